@@ -203,6 +203,7 @@ type shardProc struct {
 	cfgPosts   int64 // configuration pushes the coordinator sent to this shard
 	cfgPosts60 int64 // ... up to cycle 60
 	targetPosts int64 // target updates sent to this shard
+	lastTargetsCode int32 // status of the answer to the latest target update that reached the sidecar (0: none yet)
 	extraPosts  int64 // extra-config updates sent to this shard
 	drifted     bool  // runs its own configuration file, which differs from the coordinator's: never in sync
 	stopWindow  int32 // scraping is (being) stopped or resumed by the operator: a refused scrape is not a wrong answer
@@ -673,6 +674,13 @@ func runSys(c *sysCase) (vs []vkit.Violation, classes []string, infra error) {
 				http.Error(w, "shard unreachable (scripted)", 503)
 				return
 			}
+			if r.Method == "POST" && strings.HasPrefix(r.URL.Path, "/api/v1/shard/targets") {
+				// what the sidecar answered to the latest target update: one it refused is in its memory, not in its store
+				sw := &statusWriter{ResponseWriter: w, code: 200}
+				rp.ServeHTTP(sw, r)
+				atomic.StoreInt32(&sp.lastTargetsCode, int32(sw.code))
+				return
+			}
 			rp.ServeHTTP(w, r)
 		}))
 		if c.SAPath {
@@ -844,6 +852,12 @@ func runSys(c *sysCase) (vs []vkit.Violation, classes []string, infra error) {
 				atomic.StoreInt32(&s.paused, 1)
 				time.Sleep(60 * time.Millisecond)
 				before, errB := snapshotOf(s)
+				if code := atomic.LoadInt32(&s.lastTargetsCode); errB == nil && code != 0 && code != 200 {
+					// the sidecar refused the latest update (its Prometheus does not reload): what it reports is not what
+					// it acknowledged, there is nothing to compare the resumed state with
+					errB = fmt.Errorf("the latest target update was answered %d", code)
+					classes = append(classes, "sys/fault/restart-not-judged-latest-update-was-refused")
+				}
 				if f.Term && errB == nil && before.targets != "{}" {
 					atomic.StoreInt32(&s.failReload, 1000)
 					resp, err := http.Post(fmt.Sprintf("http://127.0.0.1:%d/api/v1/shard/targets/", s.api), "application/json", strings.NewReader(`{"targets":{}}`))
@@ -1317,3 +1331,13 @@ func TestReplayC02Sys(t *testing.T) { replaySys(t, "C02", "TestC02Sys") }
 func TestReplayC12Sys(t *testing.T) { replaySys(t, "C12", "TestC12Sys") }
 func TestReplayC09Sys(t *testing.T) { replaySys(t, "C09", "TestC09Sys") }
 func TestReplayC10Sys(t *testing.T) { replaySys(t, "C10", "TestC10Sys") }
+
+type statusWriter struct {
+	http.ResponseWriter
+	code int
+}
+
+func (w *statusWriter) WriteHeader(c int) {
+	w.code = c
+	w.ResponseWriter.WriteHeader(c)
+}
